@@ -356,9 +356,10 @@ theorem C02_reluU_saturate_hi_top (t : Tie) (c : ReluCfg) (h : c.slopeLog = none
   | some u => exact clampTo_of_le (hc u hcl)
 
 /-- nearest code of the float activation `x_u` (`ReluCfg.act`: the ReLU, bounded by the quantized
-    range under `is_quantized_clip`, else by `relu_upper_bound`), for every truthy bound -/
+    range under `is_quantized_clip`, else by `relu_upper_bound`), for EVERY bound (the hypothesis
+    "`is_quantized_clip` or a bound other than `0.0`" was dropped with the fix of C02-relu-upper-zero) -/
 theorem C02_reluU_nearest (t : Tie) (c : ReluCfg) (h : c.slopeLog = none)
-    (hz : c.qclip = true ∨ c.upper ≠ some 0) (x : ℚ) (h0 : 0 ≤ x)
+    (x : ℚ) (h0 : 0 ≤ x)
     (ha : c.act x ≤ (c.hi : ℚ) * c.step) : |qreluU t c x - c.act x| ≤ c.step / 2 := by
   have hsp := c.step_pos
   have hlr : c.lrelu x = x := by unfold ReluCfg.lrelu; rw [if_neg (not_lt.mpr h0)]
@@ -383,12 +384,7 @@ theorem C02_reluU_nearest (t : Tie) (c : ReluCfg) (h : c.slopeLog = none)
       rw [hact] at ha ⊢
       exact near ha
     | some u =>
-      have hu0 : u ≠ 0 := by
-        rcases hz with hz | hz
-        · rw [hq] at hz; cases hz
-        · intro h0'; apply hz; rw [hu, h0']
-      have hcl : c.clamp = some u := by
-        unfold ReluCfg.clamp; simp [hq, hu, hu0]
+      have hcl : c.clamp = some u := ReluCfg.clamp_of_upper hq hu
       have hact : c.act x = if x ≤ u then x else u := by
         unfold ReluCfg.act; simp [hq, hu, hlr]
       rw [hact] at ha ⊢
@@ -432,13 +428,27 @@ theorem C02_reluU_idem (t : Tie) (c : ReluCfg) (h : c.slopeLog = none)
     apply clampTo_of_le
     rw [← hk]; unfold qreluU; rw [hcl]; exact clampTo_le_bound u _
 
-/-- COUNTEREXAMPLE (known finding C02-relu-upper-zero): `relu_upper_bound = 0.0` bounds the float
-    activation (`is not None`) but not the quantized value (truthiness): `quantized_relu(3, 0,
-    is_quantized_clip=False, relu_upper_bound=0.0)(1)`: activation `0`, output `7/8` -/
-theorem C02_reluU_zero_bound_counterexample :
+/-- REGRESSION WITNESS (former finding C02-relu-upper-zero, repaired): `relu_upper_bound = 0.0`
+    bounded the float activation (`is not None`) but not the quantized value (truthiness):
+    `quantized_relu(3, 0, is_quantized_clip=False, relu_upper_bound=0.0)(1)` had activation `0` and
+    output `7/8`; now the output is the nearest code `0` of the activation -/
+theorem C02_reluU_zero_bound_fixed_witness :
     let c : ReluCfg := { bits := 3, integer := 0, slopeLog := none, upper := some 0, qclip := false }
-    c.act 1 = 0 ∧ qreluU .even c 1 = 7/8 ∧ c.step = 1/8 := by
-  refine ⟨by decide +kernel, by decide +kernel, by decide +kernel⟩
+    c.act 1 = 0 ∧ qreluU .even c 1 = 0 ∧ qrelu .even c 1 = 7/8 ∧ c.step = 1/8 := by
+  refine ⟨by decide +kernel, by decide +kernel, by decide +kernel, by decide +kernel⟩
+
+/-- … and for every format, tie rule and input: under the bound `0.0` a plain ReLU emits exactly the
+    activation `0` -/
+theorem C02_reluU_zero_bound_exact (t : Tie) (c : ReluCfg) (h : c.slopeLog = none)
+    (hq : c.qclip = false) (hu : c.upper = some 0) (x : ℚ) (h0 : 0 ≤ x) :
+    qreluU t c x = c.act x := by
+  rw [qreluU_zero_bound t c h hq hu x]
+  unfold ReluCfg.act ReluCfg.lrelu
+  rw [hq, hu]
+  simp only [Bool.false_eq_true, if_false]
+  split
+  · rename_i hx; rw [if_neg (not_lt.mpr h0)]; linarith
+  · rfl
 
 /-- COUNTEREXAMPLE (known finding C02-relu-upper-offgrid-idem): an off-grid bound is emitted as is
     and re-quantized to a code: `quantized_relu(4,1,is_quantized_clip=False,relu_upper_bound=1.3)`:
